@@ -169,7 +169,7 @@ class Stub:
         return type(other) is Stub and other.n == self.n
 
     def __hash__(self):
-        return hash(("Stub", self.n))
+        return self.n * 31 + 17 if type(self.n) is int else 17        # (CrossHair's hash() of a tuple is a symbolic int: not allowed here)
 
     def __repr__(self):
         return f"Stub({self.n!r})"
